@@ -156,10 +156,57 @@ class ModuleSweep:
                 self.unit(f, opts, n)
         if self.undecided:
             try:
+                self.shape_units(f)
+            except Exception as e:      # noqa: B902
+                self.undecided.append(dict(opts='', n='shape', why='shape-directed pass crashed: %s' % str(e)[:80]))
+            try:
                 self.bounded_standin()
             except Exception as e:      # noqa: B902
                 self.undecided.append(dict(opts='', n='bounded', why='bounded stand-in crashed: %s' % e))
         return self.result()
+
+    # ------------------------------------------------------------------ shape-directed pass for undecided modules
+    def shape_units(self, f):
+        """modules whose compact() forks on every separator position never get past it within the budget.  This pass
+        takes the presentations found in the corpus, keeps their separators and length, and makes every ASCII letter and
+        digit an unknown over [0-9A-Za-z]: validate() is then executed symbolically on all numbers of that shape.  It can
+        only refute (every finding is replayed); nothing is claimed proved from it."""
+        from . import corpus
+        alnum = ISet([(48, 57), (65, 90), (97, 122)])
+        shapes = []
+        for x in corpus.valid_numbers(self.modname, 80):
+            if not x or len(x) > 40:
+                continue
+            sh = ''.join('x' if (c.isascii() and c.isalnum()) else c for c in x)
+            if sh not in shapes:
+                shapes.append(sh)
+        t_end = time.time() + (45 if self.tier == 'quick' else 600)
+        done = 0
+        for sh in sorted(shapes, key=len)[:4 if self.tier == 'quick' else 12]:
+            for opts in option_valuations(self.mod)[:2 if self.tier == 'quick' else 8]:
+                left = t_end - time.time()
+                if left < 3:
+                    break
+
+                def make_args(ctx, sh=sh):
+                    fs = FixedStr([ctx.fresh_char(alnum, 'h') if c == 'x' else ord(c) for c in sh])
+                    ctx.primary = fs
+                    ctx.primary_params = None
+                    return [fs]
+
+                def on_path(p, opts=opts):
+                    try:
+                        if p.kind == 'raise':
+                            self.on_raise(p, opts, 'shape')
+                        else:
+                            self.on_return(p, opts, 'shape')
+                    except (Unsupported, z3.Z3Exception):
+                        pass
+                ex = explore(f, make_args, len(sh), budget=1500 if self.tier == 'quick' else 10000, time_limit=min(left, 15 if self.tier == 'quick' else 120),
+                             kwargs=opts, long_bound=self.nmax, on_path=on_path)
+                done += 1
+                self.stats['checks'] += ex.checks
+        self.stats['shape_units'] = done
 
     # ------------------------------------------------------------------ bounded stand-in for undecided modules
     HOSTILE = ['', ' ', '\n', '\x00', '0', '-', '1' * 50, '1' * 5000, 'A' * 41, '\u0661\u0662\u0663', '\uff11\uff12', '\U0001d7ce' * 9, '\u00b2\u00b3',
@@ -187,6 +234,7 @@ class ModuleSweep:
         # the rest of the corpus (the number lists of tests/*.doctest) as it stands, and synthesised valid numbers: cheap
         first = set(corpus.valid_numbers(self.modname, 10 if self.tier == 'quick' else 40))
         more = [x for x in corpus.valid_numbers(self.modname, 400 if self.tier == 'quick' else 4000) if x not in first]
+        inputs += corpus.registry_gaps(self.modname)
         inputs += more + [x for x in corpus.synth_valid(self.modname, 30 if self.tier == 'quick' else 300, int(os.environ.get('VERIF_SEED', '0') or 0))
                           if x not in more]
         n = 0
